@@ -176,13 +176,31 @@ type vChain struct {
 	gasLimit uint64
 	height   uint64
 	feed     *event.Feed
+	blocks   map[common.Hash]*types.Block // blocks of the reorg families, by hash
 }
 
 func (bc *vChain) CurrentBlock() *types.Block {
 	return types.NewBlock(&types.Header{GasLimit: bc.gasLimit, Height: bc.height}, nil, nil, nil, trie.NewStackTrie(nil))
 }
-func (bc *vChain) GetBlock(hash common.Hash, number uint64) *types.Block { return bc.CurrentBlock() }
-func (bc *vChain) StateAt(height uint64) (*state.StateDB, error)          { return bc.statedb, nil }
+func (bc *vChain) GetBlock(hash common.Hash, number uint64) *types.Block {
+	if b, ok := bc.blocks[hash]; ok {
+		return b
+	}
+	return bc.CurrentBlock()
+}
+
+// newBlock makes a block (registered by hash) on top of parent with a salt that keeps hashes distinct.
+func (bc *vChain) newBlock(parent common.Hash, height uint64, salt uint64, txs []*types.Transaction) *types.Block {
+	h := &types.Header{GasLimit: bc.gasLimit, Height: height, LastBlockID: types.BlockID{Hash: parent}}
+	h.AppHash = common.BigToHash(new(big.Int).SetUint64(salt))
+	b := types.NewBlock(h, txs, nil, nil, trie.NewStackTrie(nil))
+	if bc.blocks == nil {
+		bc.blocks = map[common.Hash]*types.Block{}
+	}
+	bc.blocks[b.Hash()] = b
+	return b
+}
+func (bc *vChain) StateAt(height uint64) (*state.StateDB, error) { return bc.statedb, nil }
 func (bc *vChain) SubscribeChainHeadEvent(ch chan<- events.ChainHeadEvent) event.Subscription {
 	return bc.feed.Subscribe(ch)
 }
@@ -204,17 +222,21 @@ type vTx struct {
 }
 
 type vCase struct {
-	o      *vOut
-	r      *vRand
-	cfg    TxPoolConfig
-	chain  *vChain
-	pool   *TxPool
-	txs    []*vTx // by id-1
-	byHash map[common.Hash]*vTx
-	step   int
-	jpath  string
-	kinds  []string
-	outs   []string
+	o        *vOut
+	r        *vRand
+	cfg      TxPoolConfig
+	chain    *vChain
+	pool     *TxPool
+	txs      []*vTx // by id-1
+	byHash   map[common.Hash]*vTx
+	step     int
+	jpath    string
+	kinds    []string
+	outs     []string
+	mined    map[int]map[uint64]*vTx // per account: nonce -> tx that left the pool as "mined" at a reset
+	head     *types.Block            // head block of the header-carrying reset families
+	salt     uint64
+	reinjGap map[int]bool // accounts whose pending list got an internal gap at a partial reinjection
 }
 
 func errClass(err error) string {
@@ -302,6 +324,10 @@ type vSnap struct {
 	status         []TxStatus
 	journal        string
 	beats          map[int]bool
+	heapMissing    []int // remote txs of the index without an entry in the price heap
+	heapIDs        []int // the live entries of the price heap (those of indexed remote txs), duplicates included
+	heapLen        int   // all entries, stale ones included
+	stales         int64
 }
 
 func (c *vCase) entries(m map[common.Address]types.Transactions) map[int][]vEntry {
@@ -378,6 +404,30 @@ func (c *vCase) snapshot() *vSnap {
 	for a := range p.beats {
 		s.beats[vAddrI[a]] = true
 	}
+	inHeap := map[common.Hash]bool{}
+	for _, tx := range []*types.Transaction(*p.priced.remotes) {
+		inHeap[tx.Hash()] = true
+		id := 0
+		if v, ok := c.byHash[tx.Hash()]; ok {
+			id = v.id
+		}
+		if p.all.GetRemote(tx.Hash()) != nil {
+			s.heapIDs = append(s.heapIDs, id)
+		}
+		s.heapLen++
+	}
+	sort.Ints(s.heapIDs)
+	s.stales = atomic.LoadInt64(&p.priced.stales)
+	p.all.Range(func(h common.Hash, tx *types.Transaction, local bool) bool {
+		if !inHeap[h] {
+			id := 0
+			if v, ok := c.byHash[h]; ok {
+				id = v.id
+			}
+			s.heapMissing = append(s.heapMissing, id)
+		}
+		return true
+	}, false, true)
 	p.mu.RUnlock()
 	if ids, on := c.journalIDs(); on {
 		sort.Ints(ids)
@@ -462,7 +512,7 @@ func (s *vSnap) line(errs []string) string {
 		}
 		st = b.String()
 	}
-	return fmt.Sprintf("e=%s %s t=%s j=%s sl=%d", e, s.content(), st, s.journal, s.slots)
+	return fmt.Sprintf("e=%s %s t=%s j=%s sl=%d h=%d/%d:%s", e, s.content(), st, s.journal, s.slots, s.stales, s.heapLen, csvInts(s.heapIDs))
 }
 
 func (c *vCase) heapLine() string {
@@ -483,7 +533,71 @@ func (c *vCase) heapLine() string {
 
 // ---------------------------------------------------------------- direct oracles (independent of the model)
 
-func (c *vCase) stateNonce(a int) uint64    { return c.chain.statedb.GetNonce(vAddrs[a-1]) }
+// specSlots: a transaction occupies ceil(size / 32 KiB) slots (integer arithmetic, independent of numSlots).
+func specSlots(tx *types.Transaction) int {
+	return int((uint64(tx.Size()) + 32*1024 - 1) / (32 * 1024))
+}
+
+// specInvalid re-implements the validity conditions of the property text (not their order) with
+// math/big against the fake chain: which rejection reasons apply to tx when submitted as local/remote.
+func (c *vCase) specInvalid(v *vTx, isLocal bool, floor *big.Int) map[string]bool {
+	tx := v.tx
+	bad := map[string]bool{}
+	if uint64(tx.Size()) > 4*32*1024 {
+		bad["oversized"] = true
+	}
+	if tx.Value().Sign() < 0 {
+		bad["negative"] = true
+	}
+	if tx.Gas() > c.chain.gasLimit {
+		bad["gaslimit"] = true
+	}
+	if v.from == 0 {
+		bad["sender"] = true
+		return bad
+	}
+	if !isLocal && tx.GasPrice().Cmp(floor) < 0 {
+		bad["underpriced"] = true
+	}
+	if v.from >= 1 && v.from <= vAccts {
+		if tx.Nonce() < c.stateNonce(v.from) {
+			bad["noncelow"] = true
+		}
+		cost := new(big.Int).Mul(tx.GasPrice(), new(big.Int).SetUint64(tx.Gas()))
+		cost.Add(cost, tx.Value())
+		if c.stateBalance(v.from).Cmp(cost) < 0 {
+			bad["funds"] = true
+		}
+	} else if tx.Value().Sign() > 0 || tx.GasPrice().Sign() > 0 && tx.Gas() > 0 {
+		bad["funds"] = true // an unknown key has no balance
+	}
+	// intrinsic gas: base + 4 per zero byte + 68 per non-zero byte (constants of configs/)
+	next := c.chain.height + 1
+	galaxias := configs.TestChainConfig.GalaxiasBlock != nil && *configs.TestChainConfig.GalaxiasBlock <= next
+	base := configs.TxGas
+	if tx.To() == nil {
+		base = configs.TxGasContractCreation
+	} else if !galaxias {
+		base = configs.TxGasLegacy
+	}
+	nzb, zb := int64(0), int64(0)
+	for _, b := range tx.Data() {
+		if b != 0 {
+			nzb++
+		} else {
+			zb++
+		}
+	}
+	intr := new(big.Int).SetUint64(base)
+	intr.Add(intr, new(big.Int).Mul(big.NewInt(nzb), new(big.Int).SetUint64(configs.TxDataNonZeroGas)))
+	intr.Add(intr, new(big.Int).Mul(big.NewInt(zb), new(big.Int).SetUint64(configs.TxDataZeroGas)))
+	if new(big.Int).SetUint64(tx.Gas()).Cmp(intr) < 0 {
+		bad["intrinsic"] = true
+	}
+	return bad
+}
+
+func (c *vCase) stateNonce(a int) uint64     { return c.chain.statedb.GetNonce(vAddrs[a-1]) }
 func (c *vCase) stateBalance(a int) *big.Int { return c.chain.statedb.GetBalance(vAddrs[a-1]) }
 
 func isLocal(s *vSnap, a int) bool {
@@ -508,11 +622,20 @@ func (c *vCase) invariantX(s *vSnap, afterReorg bool, capped map[int]bool, limCl
 	for a, l := range s.pending {
 		sn := c.stateNonce(a)
 		bal := c.stateBalance(a)
+		gap := false
 		for i, e := range l {
 			if e.nonce != sn+uint64(i) {
-				o.Fail(c.step, "pending-gap", fmt.Sprintf("acct=%d pos=%d nonce=%d state_nonce=%d", a, i, e.nonce, sn))
+				gap = true
+				if c.reinjGap[a] && l[0].nonce == sn {
+					o.Fail(c.step, "pending-gap-reinject", fmt.Sprintf("after_partial_reinjection acct=%d pos=%d nonce=%d state_nonce=%d", a, i, e.nonce, sn))
+				} else {
+					o.Fail(c.step, "pending-gap", fmt.Sprintf("acct=%d pos=%d nonce=%d state_nonce=%d", a, i, e.nonce, sn))
+				}
 				break
 			}
+		}
+		if !gap {
+			delete(c.reinjGap, a)
 		}
 		for _, e := range l {
 			if e.tx.Cost().Cmp(bal) > 0 {
@@ -531,7 +654,12 @@ func (c *vCase) invariantX(s *vSnap, afterReorg bool, capped map[int]bool, limCl
 			total++
 		}
 		if len(l) > 0 && s.nonces[a] != l[len(l)-1].nonce+1 {
-			o.Fail(c.step, "pending-nonce", fmt.Sprintf("acct=%d Nonce()=%d last_pending=%d", a, s.nonces[a], l[len(l)-1].nonce))
+			if gap && c.reinjGap[a] {
+				// follow-on of the gapped run: a later promotion run of the account ends below its last pending nonce
+				o.Fail(c.step, "pending-gap-reinject", fmt.Sprintf("after_partial_reinjection follow_on=pending-nonce acct=%d Nonce()=%d last_pending=%d", a, s.nonces[a], l[len(l)-1].nonce))
+			} else {
+				o.Fail(c.step, "pending-nonce", fmt.Sprintf("acct=%d Nonce()=%d last_pending=%d", a, s.nonces[a], l[len(l)-1].nonce))
+			}
 		}
 	}
 	for a := 1; a <= vAccts; a++ {
@@ -586,16 +714,21 @@ func (c *vCase) invariantX(s *vSnap, afterReorg bool, capped map[int]bool, limCl
 	sl := 0
 	for _, l := range s.pending {
 		for _, e := range l {
-			sl += numSlots(e.tx)
+			sl += specSlots(e.tx)
 		}
 	}
 	for _, l := range s.queue {
 		for _, e := range l {
-			sl += numSlots(e.tx)
+			sl += specSlots(e.tx)
 		}
 	}
 	if sl != s.slots {
-		o.Fail(c.step, "slots", fmt.Sprintf("all.Slots()=%d sum=%d", s.slots, sl))
+		o.Fail(c.step, "slots", fmt.Sprintf("all.Slots()=%d sum of ceil(size/32KiB)=%d", s.slots, sl))
+	}
+	// every remote tx must be visible to price eviction (SetGasPrice / pool-full): it has a heap entry
+	if len(s.heapMissing) > 0 {
+		sort.Ints(s.heapMissing)
+		o.Fail(c.step, "heap-missing", fmt.Sprintf("remote ids %v are indexed but have no entry in the price heap", s.heapMissing))
 	}
 	// every tx of a local account is flagged local in the index (so price eviction cannot see it)
 	for _, m := range []map[int][]vEntry{s.pending, s.queue} {
@@ -700,6 +833,53 @@ func (c *vCase) opAdd(local bool, txs []*types.Transaction) {
 	c.kinds = append(c.kinds, map[bool]string{true: "L", false: "A"}[local])
 	c.outs = append(c.outs, strings.Join(ecs, "+"))
 
+	// validity (spec re-implementation): nothing invalid is accepted, and a validation error names a
+	// condition that really holds; "known" exactly for what the pool already holds
+	asLocal := local && !c.pool.config.NoLocals
+	capSlots := c.pool.config.GlobalSlots + c.pool.config.GlobalQueue
+	for i, v := range vts {
+		isLoc := asLocal || isLocal(pre, v.from)
+		bad := c.specInvalid(v, isLoc, pre.gasPrice)
+		var reasons []string
+		for k := range bad {
+			reasons = append(reasons, k)
+		}
+		sort.Strings(reasons)
+		_, held := pre.all[v.id]
+		earlier := false
+		for j := 0; j < i; j++ {
+			if vts[j].id == v.id {
+				earlier = true
+			}
+		}
+		desc := fmt.Sprintf("id=%d from=%d nonce=%d price=%s gas=%d value=%s size=%d local=%v err=%s spec_reasons=%v", v.id, v.from, v.tx.Nonce(), v.tx.GasPrice(), v.tx.Gas(), v.tx.Value(), uint64(v.tx.Size()), isLoc, ecs[i], reasons)
+		switch ecs[i] {
+		case "ok":
+			if len(bad) > 0 {
+				o.Fail(c.step, "accepted-invalid", desc)
+			}
+			if held {
+				o.Fail(c.step, "accepted-known", desc)
+			}
+		case "known":
+			if !held && !earlier {
+				o.Fail(c.step, "reject-wrong-reason", "not held by the pool "+desc)
+			}
+		case "oversized", "negative", "gaslimit", "sender", "noncelow", "funds", "intrinsic":
+			if !bad[ecs[i]] {
+				o.Fail(c.step, "reject-wrong-reason", desc)
+			}
+		case "underpriced", "full":
+			// also produced by the pool-full branch: only judged for a single submission
+			if len(vts) == 1 && !bad[ecs[i]] && uint64(pre.slots+specSlots(v.tx)) <= capSlots {
+				o.Fail(c.step, "reject-wrong-reason", "pool_not_full "+desc)
+			}
+		}
+		if held && ecs[i] != "known" {
+			o.Fail(c.step, "reject-wrong-reason", "held by the pool but not reported as known "+desc)
+		}
+	}
+
 	// replacement rule / rejected => unchanged / locals exempt
 	find := func(s *vSnap, a int, nonce uint64) *vEntry {
 		for _, m := range []map[int][]vEntry{s.pending, s.queue} {
@@ -725,9 +905,22 @@ func (c *vCase) opAdd(local bool, txs []*types.Transaction) {
 				th.Mul(th, old.tx.GasPrice()).Div(th, big.NewInt(100))
 				if v.tx.GasPrice().Cmp(th) < 0 || v.tx.GasPrice().Cmp(old.tx.GasPrice()) <= 0 {
 					detail := fmt.Sprintf("acct=%d nonce=%d old_price=%s new_price=%s bump=%s accepted", v.from, v.tx.Nonce(), old.tx.GasPrice(), v.tx.GasPrice(), bump)
-					full := uint64(pre.slots+numSlots(v.tx)) > c.pool.config.GlobalSlots+c.pool.config.GlobalQueue
+					full := uint64(pre.slots+specSlots(v.tx)) > c.pool.config.GlobalSlots+c.pool.config.GlobalQueue
+					// the old tx is certainly among the victims of priced.Discard (cheapest first, higher nonce
+					// first among equal prices) when the remotes at or below its rank do not free enough slots
+					// (a many-slot tx evicts several remotes, whatever their price)
+					needed := pre.slots + specSlots(v.tx) - int(c.pool.config.GlobalSlots+c.pool.config.GlobalQueue)
+					before := 0
+					for id, loc := range pre.all {
+						if t := c.txs[id-1].tx; !loc && id != old.id {
+							if k := t.GasPrice().Cmp(old.tx.GasPrice()); k < 0 || (k == 0 && t.Nonce() >= old.tx.Nonce()) {
+								before += specSlots(t)
+							}
+						}
+					}
+					sureVictim := before < needed
 					// (a local add forces the eviction whatever its price: Discard(..., force=true))
-					if full && !pre.all[old.id] && (v.tx.GasPrice().Cmp(old.tx.GasPrice()) > 0 || (local && !c.pool.config.NoLocals)) {
+					if full && !pre.all[old.id] && (sureVictim || v.tx.GasPrice().Cmp(old.tx.GasPrice()) > 0 || (local && !c.pool.config.NoLocals)) {
 						// the old tx was evicted as (one of) the cheapest remote(s) by the pool-full branch
 						o.Fail(c.step, "replace-bypass-eviction", "old_remote_cheapest pool_full "+detail)
 					} else {
@@ -809,6 +1002,35 @@ func (c *vCase) opAdd(local bool, txs []*types.Transaction) {
 			o.Fail(c.step, "reject-changed", fmt.Sprintf("errs=%s before=[%s] after=[%s]", strings.Join(ecs, ","), pre.content(), post.content()))
 		}
 	}
+	// pool-full eviction takes the cheapest remotes: judged when exactly the needed number of
+	// one-slot transactions disappeared (then they are the victims of priced.Discard)
+	if len(txs) == 1 && errs[0] == nil && !asLocal && !isLocal(pre, vts[0].from) && pre.slots == pre.allCount && specSlots(txs[0]) == 1 &&
+		uint64(pre.slots+1) > capSlots {
+		needed := pre.slots + 1 - int(capSlots)
+		var gone []int
+		for id := range pre.all {
+			if _, ok := post.all[id]; !ok && !replacedBy[id] {
+				gone = append(gone, id)
+			}
+		}
+		if len(gone) == needed {
+			o.Count("evict:judged")
+			for _, g := range gone {
+				for id, loc := range pre.all {
+					if _, ok := post.all[id]; !ok || loc || id == g {
+						continue
+					}
+					st, gt := c.txs[id-1].tx, c.txs[g-1].tx
+					if st.GasPrice().Cmp(gt.GasPrice()) < 0 {
+						o.Fail(c.step, "evict-not-cheapest", fmt.Sprintf("evicted id=%d price=%s while remote id=%d price=%s stays", g, gt.GasPrice(), id, st.GasPrice()))
+					} else if st.GasPrice().Cmp(gt.GasPrice()) == 0 && st.Nonce() > gt.Nonce() {
+						// equal prices: the higher nonce goes first
+						o.Fail(c.step, "evict-order", fmt.Sprintf("evicted id=%d nonce=%d while remote id=%d of the same price=%s and higher nonce=%d stays", g, gt.Nonce(), id, st.GasPrice(), st.Nonce()))
+					}
+				}
+			}
+		}
+	}
 	c.localsExempt(pre, post, replacedBy, "add")
 	c.invariant(post, anyNew, capped)
 }
@@ -850,9 +1072,122 @@ func (c *vCase) localsExempt(pre, post *vSnap, replaced map[int]bool, what strin
 	}
 }
 
+// reorg builds an old branch holding [discarded] (plus a few other known transactions) and a new
+// branch holding some of them on a common ancestor, resets the pool from the old head to the new one
+// and returns what reset() has to reinject: the discarded transactions, old head first, that the new
+// branch does not include (TxDifference).
+func (c *vCase) reorg(r *vRand, discarded []*vTx) []*vTx {
+	for k := r.Intn(3); k > 0 && len(c.txs) > 0; k-- { // other txs seen before: still pooled, stale, or without a valid sender
+		v := c.txs[r.Intn(len(c.txs))]
+		dup := v.tx.Value().Sign() < 0 // not encodable: cannot sit in a block
+		if v.from >= 1 && v.from <= vAccts && c.pool.all.Get(v.tx.Hash()) == nil && v.tx.Nonce() >= c.stateNonce(v.from) {
+			dup = true // a block of the old branch cannot hold a nonce the old state had not reached
+		}
+		for _, d := range discarded {
+			if d.id == v.id {
+				dup = true
+			}
+		}
+		if !dup {
+			discarded = append(discarded, v)
+		}
+	}
+	included := map[int]bool{}
+	var inc []*types.Transaction
+	for _, v := range discarded {
+		// the new branch may hold what it has already executed (nonce below the new state nonce)
+		if (v.from < 1 || v.from > vAccts || v.tx.Nonce() < c.stateNonce(v.from)) && r.Chance(1, 2) {
+			included[v.id] = true
+			inc = append(inc, v.tx)
+		}
+	}
+	if len(c.txs) > 0 && r.Chance(1, 3) {
+		v := c.txs[r.Intn(len(c.txs))]
+		if !included[v.id] && v.tx.Value().Sign() >= 0 && (v.from < 1 || v.from > vAccts || v.tx.Nonce() < c.stateNonce(v.from)) {
+			included[v.id] = true
+			inc = append(inc, v.tx)
+		}
+	}
+	base := c.chain.height
+	c.salt++
+	anc := c.chain.newBlock(common.Hash{}, base, c.salt, nil)
+	// branch lengths; rarely the old branch is 65 or 66 blocks long (depth 64 is walked, 65 is skipped)
+	lo, ln := 1+r.Intn(2), 1+r.Intn(2)
+	deep := r.Pick(94, 3, 3)
+	if deep == 1 {
+		lo, ln = 65, 1
+	} else if deep == 2 {
+		lo, ln = 66, 1
+	}
+	split := func(l []*types.Transaction, n int) [][]*types.Transaction {
+		parts := make([][]*types.Transaction, n)
+		for _, tx := range l {
+			i := n - 1 - r.Intn(2)
+			if i < 0 {
+				i = 0
+			}
+			parts[i] = append(parts[i], tx)
+		}
+		return parts
+	}
+	var dtx []*types.Transaction
+	for _, v := range discarded {
+		dtx = append(dtx, v.tx)
+	}
+	oparts, nparts := split(dtx, lo), split(inc, ln)
+	parent, old := anc.Hash(), anc
+	for i := 0; i < lo; i++ {
+		c.salt++
+		old = c.chain.newBlock(parent, base+uint64(i)+1, c.salt, oparts[i])
+		parent = old.Hash()
+	}
+	parent = anc.Hash()
+	nb := anc
+	for i := 0; i < ln; i++ {
+		c.salt++
+		nb = c.chain.newBlock(parent, base+uint64(i)+1, c.salt, nparts[i])
+		parent = nb.Hash()
+	}
+	c.chain.height = base + uint64(ln)
+	// expected reinjection: blocks of the old branch from the head down, each in block order
+	var want []*vTx
+	if lo-ln <= 64 {
+		byHash := map[common.Hash]*vTx{}
+		for _, v := range discarded {
+			byHash[v.tx.Hash()] = v
+		}
+		for i := lo - 1; i >= 0; i-- {
+			for _, tx := range oparts[i] {
+				if v := byHash[tx.Hash()]; !included[v.id] {
+					want = append(want, v)
+				}
+			}
+		}
+		nw := len(want)
+		if nw > 3 {
+			nw = 3
+		}
+		c.o.Count(fmt.Sprintf("reset:reorg reinjected=%d", nw))
+	} else {
+		c.o.Count("reset:reorg-too-deep")
+	}
+	if deep == 1 {
+		c.o.Count("reset:reorg-depth-64")
+	}
+	<-c.pool.requestReset(old.Header(), nb.Header())
+	c.head = nb
+	return want
+}
+
 func (c *vCase) opReset(r *vRand) {
 	pre := c.snapshot()
 	sdb := c.chain.statedb
+	var discarded []*vTx
+	oldHeight := c.chain.height
+	// 0: reset(nil, nil) as the package's tests do; 1: the new head extends the old one;
+	// 2: reorg - the old branch held every transaction between the new and the old state nonce of the
+	// rolled-back accounts (the ones the pool saw leave as mined, fresh ones for the rest)
+	mode := r.Pick(40, 25, 35)
 	for a := 1; a <= vAccts; a++ {
 		addr := vAddrs[a-1]
 		sn := sdb.GetNonce(addr)
@@ -866,6 +1201,14 @@ func (c *vCase) opReset(r *vRand) {
 					spent.Add(spent, e.tx.Cost())
 				}
 				sdb.SetNonce(addr, sn+k)
+				for _, e := range pre.pending[a][:k] {
+					if c.mined[a] == nil {
+						c.mined[a] = map[uint64]*vTx{}
+					}
+					if e.id > 0 {
+						c.mined[a][e.nonce] = c.txs[e.id-1]
+					}
+				}
 				if r.Chance(2, 3) {
 					nb := new(big.Int).Sub(sdb.GetBalance(addr), spent)
 					if nb.Sign() < 0 {
@@ -878,7 +1221,24 @@ func (c *vCase) opReset(r *vRand) {
 			sdb.SetNonce(addr, sn+np+uint64(1+r.Intn(3)))
 		case 3: // reorg to a lower nonce
 			if sn > 0 {
-				sdb.SetNonce(addr, sn-uint64(1+r.Intn(int(sn))))
+				nn := sn - uint64(1+r.Intn(int(sn)))
+				sdb.SetNonce(addr, nn)
+				for n := nn; n < sn; n++ {
+					v, ok := c.mined[a][n]
+					delete(c.mined[a], n)
+					if mode != 2 {
+						continue
+					}
+					if !ok {
+						tx, err := types.SignTx(types.HomesteadSigner{}, types.NewTransaction(n, common.Address{byte(a)}, big.NewInt(int64(r.Intn(2)*100)),
+							[]uint64{30000, 50000, 100000}[r.Intn(3)], big.NewInt(vPrices[r.Intn(len(vPrices))]), nil), vKeys[a-1])
+						if err != nil {
+							panic(err)
+						}
+						v = c.register(tx)
+					}
+					discarded = append(discarded, v)
+				}
 			}
 		case 4:
 			sdb.SetNonce(addr, sn+1)
@@ -890,9 +1250,10 @@ func (c *vCase) opReset(r *vRand) {
 			sdb.SetBalance(addr, big.NewInt(0))
 		case 3:
 			sdb.SetBalance(addr, big.NewInt(1000000000))
-		case 4: // just below / at the cost of one of its pending txs
-			if np > 0 {
-				e := pre.pending[a][r.Intn(int(np))]
+		case 4: // just below / at the cost of one of its pending or queued txs
+			cands := append(append([]vEntry{}, pre.pending[a]...), pre.queue[a]...)
+			if len(cands) > 0 {
+				e := cands[r.Intn(len(cands))]
 				b := new(big.Int).Set(e.tx.Cost())
 				if r.Chance(1, 2) {
 					b.Sub(b, big.NewInt(1))
@@ -905,15 +1266,96 @@ func (c *vCase) opReset(r *vRand) {
 	}
 	if r.Chance(15, 100) {
 		c.chain.gasLimit = []uint64{30000, 50000, 100000, 1000000, 200000, 1000000}[r.Intn(6)]
+	} else if r.Chance(8, 100) && pre.allCount > 0 {
+		// the block gas limit lands exactly on / just below the gas of a pooled tx
+		var ids []int
+		for id := range pre.all {
+			ids = append(ids, id)
+		}
+		sort.Ints(ids)
+		g := c.txs[ids[r.Intn(len(ids))]-1].tx.Gas()
+		if r.Chance(1, 2) && g > 0 {
+			g--
+		}
+		c.chain.gasLimit = g
+		c.o.Count("reset:gaslimit-boundary")
 	}
 	if r.Chance(10, 100) {
-		c.chain.height = []uint64{0, 6039391, 6039392, 7000000}[r.Intn(4)]
+		c.chain.height = []uint64{0, 6039390, 6039391, 6039392, 7000000}[r.Intn(5)]
 	}
 	heap := c.heapLine()
-	<-c.pool.requestReset(nil, nil)
+	var reinject []*vTx
+	switch mode {
+	case 0: // as the package's tests do
+		<-c.pool.requestReset(nil, nil)
+		c.head = nil
+		c.o.Count("reset:nil-heads")
+	case 1: // the new head extends the old one: nothing to reinject
+		if c.head == nil {
+			c.salt++
+			c.head = c.chain.newBlock(common.Hash{}, c.chain.height, c.salt, nil)
+		}
+		c.salt++
+		nb := c.chain.newBlock(c.head.Hash(), c.chain.height, c.salt, nil)
+		<-c.pool.requestReset(c.head.Header(), nb.Header())
+		c.head = nb
+		c.o.Count("reset:extends-head")
+	case 2: // reorg: the old branch is discarded, its transactions (minus those of the new branch) are reinjected
+		reinject = c.reorg(r, discarded)
+	}
 	post := c.snapshot()
-	c.emit("RESET "+c.chainSpec()+" R 0", heap, nil, post)
+	for _, v := range reinject {
+		// (known finding) a reorged-out run that comes back only in part - one of its transactions no
+		// longer passes validateTx - is promoted below the still-pending higher nonces: internal gap
+		if l := post.pending[v.from]; len(l) > 0 && l[len(l)-1].nonce-l[0].nonce+1 != uint64(len(l)) {
+			c.reinjGap[v.from] = true
+		}
+	}
+	ids := ""
+	for _, v := range reinject {
+		ids += fmt.Sprintf(" %d", v.id)
+	}
+	c.emit(fmt.Sprintf("RESET %s R %d%s", c.chainSpec(), len(reinject), ids), heap, nil, post)
 	c.kinds = append(c.kinds, "R")
+	// a reorged-out transaction that is valid and executable on the new state is offered again
+	// (judged when the pool has room for all of them and nothing competes for its nonce)
+	if uint64(pre.slots+len(reinject)) <= c.pool.config.GlobalSlots+c.pool.config.GlobalQueue && pre.slots == pre.allCount {
+		for _, v := range reinject {
+			if v.from < 1 || v.from > vAccts || specSlots(v.tx) != 1 || v.tx.Nonce() != c.stateNonce(v.from) {
+				continue
+			}
+			if _, held := pre.all[v.id]; held {
+				continue
+			}
+			nh := c.chain.height
+			c.chain.height = oldHeight // reset() validates the reinjected txs before it updates the fork flag
+			bad := c.specInvalid(v, isLocal(pre, v.from), pre.gasPrice)
+			c.chain.height = nh
+			if len(bad) > 0 {
+				continue
+			}
+			rival := false
+			for _, m := range []map[int][]vEntry{pre.pending, pre.queue} {
+				for _, e := range m[v.from] {
+					if e.nonce == v.tx.Nonce() {
+						rival = true
+					}
+				}
+			}
+			for _, w := range reinject {
+				if w != v && w.from == v.from && w.tx.Nonce() == v.tx.Nonce() {
+					rival = true
+				}
+			}
+			if rival {
+				continue
+			}
+			c.o.Count("reset:reinject-judged")
+			if post.status[v.id-1] != TxStatusPending {
+				c.o.Fail(c.step, "reinject-lost", fmt.Sprintf("id=%d acct=%d nonce=%d was reorged out, is valid and executable on the new state, but is not pending (status=%d)", v.id, v.from, v.tx.Nonce(), post.status[v.id-1]))
+			}
+		}
+	}
 	// AccountQueue is enforced by promoteExecutables, which runReorg calls BEFORE demoteUnexecutables:
 	// txs demoted by this very reset are not capped until the account's next promotion run.
 	c.invariant(post, true, nil)
@@ -922,6 +1364,17 @@ func (c *vCase) opReset(r *vRand) {
 func (c *vCase) opPrice(r *vRand) {
 	pre := c.snapshot()
 	price := int64([]int{1, 2, 3, 5, 8, 10, 11, 12, 15, 20}[r.Intn(10)])
+	if pre.allCount > 0 && r.Chance(1, 3) {
+		var ids []int
+		for id := range pre.all {
+			ids = append(ids, id)
+		}
+		sort.Ints(ids)
+		if gp := c.txs[ids[r.Intn(len(ids))]-1].tx.GasPrice(); gp.IsInt64() && gp.Int64() < 1<<40 {
+			price = gp.Int64() + int64(r.Intn(2))
+			c.o.Count("price:on-pooled-tx")
+		}
+	}
 	heap := c.heapLine()
 	c.pool.SetGasPrice(big.NewInt(price))
 	post := c.snapshot()
@@ -1003,6 +1456,17 @@ func (c *vCase) opExpire(r *vRand) {
 	c.emit(fmt.Sprintf("EXPIRE %d %s", len(chosen), strings.Trim(fmt.Sprint(chosen), "[]")), heap, nil, post)
 	c.kinds = append(c.kinds, "E")
 	c.localsExempt(pre, post, nil, "expire")
+	for a, l := range pre.queue {
+		backdated := false
+		for _, x := range chosen {
+			if x == a {
+				backdated = true
+			}
+		}
+		if !backdated && len(post.queue[a]) != len(l) {
+			c.o.Fail(c.step, "expiry-evicted-live", fmt.Sprintf("acct=%d heartbeat within Lifetime but its queue went from %d to %d", a, len(l), len(post.queue[a])))
+		}
+	}
 	c.invariant(post, false, nil)
 }
 
@@ -1061,6 +1525,10 @@ func (c *vCase) genTx(r *vRand, pre *vSnap) *types.Transaction {
 		}
 	case 4:
 		nonce = uint64(r.Intn(9))
+		if r.Chance(1, 8) { // far future: the largest nonces there are
+			nonce = ^uint64(0) - uint64(r.Intn(2))
+			c.o.Count("gen:nonce-max")
+		}
 	}
 	price := big.NewInt(vPrices[r.Intn(len(vPrices))])
 	if old != nil {
@@ -1136,12 +1604,6 @@ func (c *vCase) genTx(r *vRand, pre *vSnap) *types.Transaction {
 			value = v
 		}
 	}
-	var tx *types.Transaction
-	if create {
-		tx = types.NewContractCreation(nonce, value, gas, price, data)
-	} else {
-		tx = types.NewTransaction(nonce, common.Address{byte(a)}, value, gas, price, data)
-	}
 	var signer types.Signer
 	switch r.Pick(48, 48, 3, 1) {
 	case 0:
@@ -1153,11 +1615,79 @@ func (c *vCase) genTx(r *vRand, pre *vSnap) *types.Transaction {
 	case 3:
 		signer = types.NewChainIDSigner(big.NewInt(243))
 	}
-	stx, err := types.SignTx(signer, tx, key)
-	if err != nil {
-		panic(err)
+	// several defects at once (which error wins is the order of validateTx)
+	if r.Chance(3, 100) {
+		c.o.Count("gen:multi-defect")
+		for k := 0; k < 2+r.Intn(2); k++ {
+			switch r.Intn(8) {
+			case 0:
+				value = big.NewInt(-1)
+			case 1:
+				gas = c.chain.gasLimit + 1
+			case 2:
+				signer = types.NewChainIDSigner(big.NewInt(7))
+			case 3:
+				if c.pool.gasPrice.Sign() > 0 {
+					price = new(big.Int).Sub(c.pool.gasPrice, big.NewInt(1))
+				}
+			case 4:
+				if sn > 0 {
+					nonce = sn - 1
+				}
+			case 5:
+				v := new(big.Int).Mul(price, new(big.Int).SetUint64(gas))
+				v.Sub(c.chain.statedb.GetBalance(addr), v).Add(v, big.NewInt(1))
+				if v.Sign() >= 0 {
+					value = v
+				}
+			case 6:
+				if gas >= intr && intr > 0 {
+					gas = intr - 1
+				}
+			case 7:
+				data = make([]byte, 131100)
+			}
+		}
 	}
-	return stx
+	build := func(d []byte) *types.Transaction {
+		var tx *types.Transaction
+		if create {
+			tx = types.NewContractCreation(nonce, value, gas, price, d)
+		} else {
+			tx = types.NewTransaction(nonce, common.Address{byte(a)}, value, gas, price, d)
+		}
+		stx, err := types.SignTx(signer, tx, key)
+		if err != nil {
+			panic(err)
+		}
+		return stx
+	}
+	// encoded size exactly on / one byte over a slot boundary (1..4 slots; 4 slots = txMaxSize)
+	if r.Chance(3, 100) {
+		target := (1+r.Intn(4))*32*1024 + r.Intn(2)
+		if r.Chance(1, 3) {
+			target = 4*32*1024 + r.Intn(2)
+		}
+		n := target - 110
+		var stx *types.Transaction
+		for it := 0; it < 8; it++ {
+			d := make([]byte, n)
+			if n > 0 {
+				d[0] = 1
+			}
+			ig, _ := IntrinsicGas(d, create, !c.pool.isGalaxias)
+			gas = ig + uint64(r.Intn(2))*1000
+			stx = build(d)
+			diff := target - int(uint64(stx.Size()))
+			if diff == 0 {
+				c.o.Count(fmt.Sprintf("gen:size-boundary slots=%d over=%d", target/(32*1024), target%(32*1024)))
+				break
+			}
+			n += diff
+		}
+		return stx
+	}
+	return build(data)
 }
 
 func (c *vCase) genBatch(r *vRand) []*types.Transaction {
@@ -1236,7 +1766,9 @@ func runCaseC17(o *vOut, r *vRand, n int, tmp string) {
 	}
 	c.cfg = cfg
 	statedb, _ := state.New(common.Hash{}, state.NewDatabase(memorydb.New()), nil)
-	c.chain = &vChain{statedb, []uint64{100000, 1000000, 50000, 200000, 1000000}[r.Intn(5)], []uint64{0, 0, 6039391, 6039392, 7000000}[r.Intn(5)], new(event.Feed)}
+	c.chain = &vChain{statedb, []uint64{100000, 1000000, 50000, 200000, 1000000}[r.Intn(5)], []uint64{0, 0, 6039391, 6039392, 7000000}[r.Intn(5)], new(event.Feed), nil}
+	c.mined = map[int]map[uint64]*vTx{}
+	c.reinjGap = map[int]bool{}
 	for a := 1; a <= vAccts; a++ {
 		statedb.SetNonce(vAddrs[a-1], uint64(r.Pick(5, 2, 2, 1)))
 		switch r.Pick(85, 8, 4, 3) {
